@@ -216,7 +216,12 @@ theorem go_rule (T : Tables α) (hV : Valid T) (H : Hooks α σ)
       le := hle
       le_len := nextPos_le_len T Idp Rdp
       lt := hlt
-      last := hlast }
+      last := hlast
+      isBreak := by
+        rcases nextPos_cases T Idp Rdp with h | ⟨e, he, h⟩ | ⟨e, he, h⟩
+        · exact Or.inl h
+        · exact Or.inr ⟨e, hRdpE e he, Or.inr h⟩
+        · exact Or.inr ⟨e, hIdpE e he, Or.inl h⟩ }
     obtain ⟨hstop, hcont⟩ := h_adv x x' (insD ++ Itk) Idp (remD ++ Dtk) Rdp _ F hDr2
     -- unfold one iteration of the model
     have hgo : go T H (n + 1) x insR remR s =
